@@ -687,10 +687,14 @@ def collapsing_set(v, hkw):
     depends on the iteration order of the set -- outside the model universe (the region of finding F29)"""
     from deepdiff import DeepHash
     if isinstance(v, (set, frozenset)):
-        try:
-            hs = [DeepHash(m, **hkw)[m] for m in v]
-        except Exception:
-            return True
+        hs = []
+        for m in v:
+            try:
+                h_ = DeepHash(m, **hkw)[m]
+            except Exception:
+                continue                  # a member of an excluded type has no digest: it is left out, it cannot collapse with another
+            if isinstance(h_, str):
+                hs.append(h_)
         return len(set(hs)) < len(hs)
     if isinstance(v, dict):
         return any(collapsing_set(x, hkw) for x in v.values())
@@ -715,16 +719,24 @@ def model_correspondence(ctx):
             y = g.edit(y)
         pairs.append((x, y))
     lines, metas = [], []
-    for (t1, t2) in pairs:
+    # fixed requests: a set member of an excluded type next to a member the other options would identify with it (false alarm 21): (case, strtype, numtype, sig, eps, ex_types)
+    forced = {}
+    for (t1_, t2_, opt_) in [([{1.5, 2, 'a'}, 0], [{2, 'a'}, 0], (False, False, True, 0, None, [int])), ({'s': {1.5, True, 'a'}}, {'s': {'a'}}, (False, False, False, None, None, [int])),
+                             ([{'a', b'x'}], [{'a', 'x'}], (False, True, False, None, None, [bytes])), ({'k': frozenset({2.0, 2, 'q'})}, {'k': frozenset({2, 'q'})}, (False, False, True, 2, None, [float])),
+                             ([{1, 'A', 'b'}], [{'a', 'b'}], (True, False, False, None, None, [int]))]:
+        pairs.append((t1_, t2_)); forced[len(pairs) - 1] = opt_
+    for pi_, (t1, t2) in enumerate(pairs):
         if not (DF.keys_modelled(t1) and DF.keys_modelled(t2) and DF.set_items_modelled(t1) and DF.set_items_modelled(t2) and HS.no_spoof(t1, t2)):
             ctx.count('corr_out_of_universe'); continue
-        for _ in range(3):
+        for rep_ in range(3):
             r = ctx.rng
             case, strtype, numtype = r.random() < 0.4, r.random() < 0.4, r.random() < 0.4
             sig = r.choice([None, None, 0, 1, 2, 3, 5])
             eps = r.choice([None, None, None, 0.01, 0.5])
             ex_types = r.choice([[], [], [], [float], [str], [int], [list], [bool], [type(None)]])
             zip_, thr, vb = r.random() < 0.4, r.choice([0, 0.33, 0.9]), r.choice([1, 2])
+            if pi_ in forced:
+                case, strtype, numtype, sig, eps, ex_types = forced[pi_]
             eff_sig = sig if sig is not None else (12 if numtype else None)
             if eff_sig is not None and not (no_inexact_tie(t1, eff_sig) and no_inexact_tie(t2, eff_sig)):
                 ctx.count('corr_out_of_universe:inexact_tie'); continue
@@ -735,7 +747,7 @@ def model_correspondence(ctx):
             if ex_types: kw['exclude_types'] = ex_types
             case_d = {'clause': 'model', 'x': repr(t1), 'y': repr(t2), 'zip': zip_, 'kw': {k: (v if not isinstance(v, list) else [t.__name__ for t in v]) for k, v in kw.items()}}
             ctx.evaluations += 1
-            hkw_ = {k: v for k, v in kw.items() if k in ('ignore_string_case', 'ignore_string_type_changes', 'ignore_numeric_type_changes', 'significant_digits')}
+            hkw_ = {k: v for k, v in kw.items() if k in ('ignore_string_case', 'ignore_string_type_changes', 'ignore_numeric_type_changes', 'significant_digits', 'exclude_types')}
             if collapsing_set(t1, hkw_) or collapsing_set(t2, hkw_):
                 ctx.count('corr_out_of_universe:collapsing_set'); continue
             try:
